@@ -3,20 +3,35 @@ import SameVerif.Lemmas.LinkPhases
 namespace SameVerif
 open SameVerif.Spec
 
-/-- while the power is below the open threshold a quiescent receiver stays quiescent -/
-theorem quiet_run_closed (c : LCfg) (xs : List Tick) (hx : ∀ x ∈ xs, x.1.openOk = false) :
-    ∀ s, Quiescent s →
+/-- warm-up or no hit: an unsynchronised, idle receiver stays so and reports `noCarrier` -/
+theorem lstep_ready (c : LCfg) (s : LState) (o : Obs) (b : Byte) (hs : Ready s)
+    (hno : 31 ≤ s.nsym → NoHit c s o) :
+    (lstep c s o b).2.1 = .noCarrier ∧ Ready (lstep c s o b).1 := by
+  by_cases h : s.nsym + 1 < 32
+  · have h1 : (lstep c s o b).2.1 = .noCarrier ∧ (lstep c s o b).1.clock = s.clock
+        ∧ (lstep c s o b).1.lock = s.lock ∧ (lstep c s o b).1.fr = .idle := by
+      simp [lstep, h, hs.fr, fend]
+    exact ⟨h1.1, ⟨by rw [h1.2.1, hs.clock], by rw [h1.2.2.1, hs.lock], h1.2.2.2⟩⟩
+  · obtain ⟨o1, o2, o3, o4, _⟩ := lstep_quiet c s o b (by omega) hs.clock hs.fr (hno (by omega))
+    exact ⟨o1, ⟨o2, by rw [o3, hs.lock], o4⟩⟩
+
+/-- **quiet run.**  While no hit is possible (`QuietNoHit`: at every tick, once the sample history
+    is full, the model's state and the observation exclude a sync hit) an unsynchronised, idle
+    receiver stays so, reports `noCarrier` throughout and no burst -/
+theorem quiet_run (c : LCfg) (xs : List Tick) :
+    ∀ s, Ready s → QuietNoHit c s xs →
       (∀ ls ∈ lrun c s xs, ls = .noCarrier) ∧ lrunBursts c s xs = []
-        ∧ Quiescent (lrunState c s xs) := by
+        ∧ Ready (lrunState c s xs) := by
   induction xs with
-  | nil => intro s hs; exact ⟨by simp [lrun], rfl, hs⟩
+  | nil => intro s hs _; exact ⟨by simp [lrun], rfl, hs⟩
   | cons x xs ih =>
-    intro s hs
-    have hno : NoHit c s x.1 := Or.inr (Or.inl (hx x List.mem_cons_self))
-    obtain ⟨o1, o2, o3, o4, _⟩ := lstep_quiet c s x.1 x.2 (by have := hs.warm; omega) hs.clock hs.fr hno
-    have hs' : Quiescent (lstep c s x.1 x.2).1 :=
-      ⟨by rw [lstep_nsym]; have := hs.warm; omega, o2, by rw [o3]; exact hs.lock, o4⟩
-    obtain ⟨r1, r2, r3⟩ := ih (fun y hy => hx y (List.mem_cons_of_mem _ hy)) _ hs'
+    intro s hs hx
+    obtain ⟨o1, hs'⟩ := lstep_ready c s x.1 x.2 hs (fun h => hx 0 (by omega) x rfl)
+    have hx' : QuietNoHit c (lstep c s x.1 x.2).1 xs := by
+      intro t h31 y hy
+      rw [lstep_nsym] at h31
+      exact hx (t + 1) (by omega) y (by simpa using hy)
+    obtain ⟨r1, r2, r3⟩ := ih _ hs' hx'
     refine ⟨?_, ?_, ?_⟩
     · intro ls hls
       simp only [lrun, List.mem_cons] at hls
@@ -27,6 +42,19 @@ theorem quiet_run_closed (c : LCfg) (xs : List Tick) (hx : ∀ x ∈ xs, x.1.ope
       exact r2
     · exact r3
 
+theorem quiescent_of_ready {s : LState} (h : Ready s) (hw : 32 ≤ s.nsym) : Quiescent s :=
+  ⟨hw, h.clock, h.lock, h.fr⟩
+
+/-- while the power is below the open threshold a quiescent receiver stays quiescent -/
+theorem quiet_run_closed (c : LCfg) (xs : List Tick) (hx : ∀ x ∈ xs, x.1.openOk = false) :
+    ∀ s, Quiescent s →
+      (∀ ls ∈ lrun c s xs, ls = .noCarrier) ∧ lrunBursts c s xs = []
+        ∧ Quiescent (lrunState c s xs) := by
+  intro s hs
+  obtain ⟨r1, r2, r3⟩ := quiet_run c xs s hs.ready
+    (fun t _ => noHitAt_of_closed c s xs t (fun x h => hx x (List.mem_of_getElem? h)))
+  exact ⟨r1, r2, quiescent_of_ready r3 (by rw [nsym_run]; have := hs.warm; omega)⟩
+
 section
 variable {pl : List Byte} {lead body tail : List Tick} {acq rel : Nat}
 
@@ -34,8 +62,9 @@ variable {pl : List Byte} {lead body tail : List Tick} {acq rel : Nat}
 def syncTick (acq : Nat) : Nat := 8 * ((acq + 31) / 8) + 7
 
 /-- state right after the first sync -/
-theorem first_sync_state (H : BurstObserved pl lead body tail acq rel) (hok : PayloadOk pl)
-    (c : LCfg) (hE : c.maxErrors ≤ 6) (hP : c.fc.maxPrefixErr < 15) (s1 : LState) (hq : Quiescent s1) :
+theorem first_sync_state (H : BurstObserved' pl body tail acq rel) (hok : PayloadOk pl)
+    (c : LCfg) (hE : c.maxErrors ≤ 6) (hP : c.fc.maxPrefixErr < 15) (s1 : LState) (hq : Quiescent s1)
+    (N : BTNoHit c s1 body tail acq) :
     (lrunState c s1 ((body ++ tail).take (syncTick acq + 1))).clock = some 1
       ∧ (lrunState c s1 ((body ++ tail).take (syncTick acq + 1))).lock = false
       ∧ (lrunState c s1 ((body ++ tail).take (syncTick acq + 1))).fr = .search 0xAB 1
@@ -43,13 +72,14 @@ theorem first_sync_state (H : BurstObserved pl lead body tail acq rel) (hok : Pa
       ∧ lrunBursts c s1 ((body ++ tail).take (syncTick acq + 1)) = [] := by
   have hacq := H.acq_le
   unfold syncTick
-  exact phase_sync H hok c hE hP s1 hq _ (by omega) (by omega) (by omega) (by intro t h1 h2; omega)
+  exact phase_sync H hok c hE hP s1 hq N _ (by omega) (by omega) (by omega) (by intro t h1 h2; omega)
 
 /-- state before the byte tick that follows the last payload byte (tail index 31): the framer has
     read exactly the payload, the squelch is locked, nothing has been reported yet -/
-theorem synced_end (H : BurstObserved pl lead body tail acq rel) (hok : PayloadOk pl)
+theorem synced_end (H : BurstObserved' pl body tail acq rel) (hok : PayloadOk pl)
     (hdash : ∀ h : 4 < pl.length, pl[4] = 45)
-    (c : LCfg) (hE : c.maxErrors ≤ 6) (hF : PrefixFacts c.fc pl) (s1 : LState) (hq : Quiescent s1) :
+    (c : LCfg) (hE : c.maxErrors ≤ 6) (hF : PrefixFacts c.fc pl) (s1 : LState) (hq : Quiescent s1)
+    (N : BTNoHit c s1 body tail acq) :
     (lrunState c s1 ((body ++ tail).take (body.length + 31))).clock = some 0
       ∧ (lrunState c s1 ((body ++ tail).take (body.length + 31))).lock = true
       ∧ (lrunState c s1 ((body ++ tail).take (body.length + 31))).train = 0
@@ -60,14 +90,14 @@ theorem synced_end (H : BurstObserved pl lead body tail acq rel) (hok : PayloadO
   have hpl := payload_len_ge hok
   have htl := H.tail_len
   have hacq := H.acq_le
-  have hsync := first_sync_state H hok c hE hF.b0 s1 hq
+  have hsync := first_sync_state H hok c hE hF.b0 s1 hq N
   unfold syncTick at hsync
   have hq3 : 3 ≤ (acq + 31) / 8 := by omega
   have hq15 : (acq + 31) / 8 ≤ 15 := by omega
   generalize hq0 : (acq + 31) / 8 = q0 at hq3 hq15 hsync
   have hj0 : acq + 31 ≤ 8 * q0 + 7 := by omega
   have hd : 8 * q0 + 8 + (body.length + 31 - (8 * q0 + 8)) = body.length + 31 := by omega
-  have hsy := phase_synced H hok hdash c hE hF s1 hq q0 hq3 hq15 hj0 hsync
+  have hsy := phase_synced H hok hdash c hE hF s1 hq N q0 hq3 hq15 hj0 hsync
     (body.length + 31 - (8 * q0 + 8)) (by omega)
   rw [hd] at hsy
   obtain ⟨y1, y2, y3, y4, y5⟩ := hsy
@@ -85,14 +115,15 @@ theorem synced_end (H : BurstObserved pl lead body tail acq rel) (hok : PayloadO
   · rw [y3, hfr]
 
 /-- `body ++ tail` from a quiescent state: exactly one burst, `payload ++ g` -/
-theorem burst_body_tail (H : BurstObserved pl lead body tail acq rel) (hok : PayloadOk pl)
+theorem burst_body_tail (H : BurstObserved' pl body tail acq rel) (hok : PayloadOk pl)
     (hdash : ∀ h : 4 < pl.length, pl[4] = 45)
-    (c : LCfg) (hE : c.maxErrors ≤ 6) (hF : PrefixFacts c.fc pl) (s1 : LState) (hq : Quiescent s1) :
+    (c : LCfg) (hE : c.maxErrors ≤ 6) (hF : PrefixFacts c.fc pl) (s1 : LState) (hq : Quiescent s1)
+    (N : BTNoHit c s1 body tail acq) :
     ∃ g, lrunBursts c s1 (body ++ tail) = [pl ++ g] ∧ g.length ≤ (rel + 7) / 8
       ∧ Quiescent (lrunState c s1 (body ++ tail)) := by
   have htl := H.tail_len
-  have hbase := synced_end H hok hdash c hE hF s1 hq
-  have hg := phase_garbage H hok c s1 hq hbase (tail.length - 31) (by omega)
+  have hbase := synced_end H hok hdash c hE hF s1 hq N
+  have hg := phase_garbage H hok c s1 hq N hbase (tail.length - 31) (by omega)
   unfold GarbageInv at hg
   have hall : body.length + (31 + (tail.length - 31)) = (body ++ tail).length := by
     rw [List.length_append]; omega
@@ -101,14 +132,17 @@ theorem burst_body_tail (H : BurstObserved pl lead body tail acq rel) (hok : Pay
   · omega
   · exact ⟨g, g4, g5, ⟨by rw [nsym_run]; have := hq.warm; omega, g1, g2, g3⟩⟩
 
-/-- one burst, from lead-in to the end of the tail -/
-theorem burst_whole (H : BurstObserved pl lead body tail acq rel) (hok : PayloadOk pl)
+/-- one burst, from lead-in to the end of the tail; the start state need only be unsynchronised
+    and idle, provided the lead-in fills the sample history -/
+theorem burst_whole {lead : List Tick} (H : BurstObserved' pl body tail acq rel) (hok : PayloadOk pl)
     (hdash : ∀ h : 4 < pl.length, pl[4] = 45)
-    (c : LCfg) (hE : c.maxErrors ≤ 6) (hF : PrefixFacts c.fc pl) (s : LState) (hq : Quiescent s) :
+    (c : LCfg) (hE : c.maxErrors ≤ 6) (hF : PrefixFacts c.fc pl) (s : LState) (hq : Ready s)
+    (hw : 32 ≤ s.nsym + lead.length) (N : NoFalseHits c s lead body tail acq) :
     ∃ g, lrunBursts c s (lead ++ body ++ tail) = [pl ++ g] ∧ g.length ≤ (rel + 7) / 8
       ∧ Quiescent (lrunState c s (lead ++ body ++ tail)) := by
-  obtain ⟨_, l2, l3⟩ := quiet_run_closed c lead H.lead_closed s hq
-  obtain ⟨g, b1, b2, b3⟩ := burst_body_tail H hok hdash c hE hF _ l3
+  obtain ⟨_, l2, l3⟩ := quiet_run c lead s hq N.quiet
+  obtain ⟨g, b1, b2, b3⟩ := burst_body_tail H hok hdash c hE hF _
+    (quiescent_of_ready l3 (by rw [nsym_run]; exact hw)) N.bt
   refine ⟨g, ?_, b2, ?_⟩
   · rw [List.append_assoc, lrunBursts_append, l2, b1]; rfl
   · rw [List.append_assoc, lrunState_append]; exact b3
